@@ -35,7 +35,7 @@ PROP = {
         "rule": "cases from one PRNG (VERIF_SEED) as for C12 but with frequent dropped calls (14% of the ops), futures dropped unpolled or "
                 "after their first poll, connection cuts, dropped clients, undecodable requests / replies (10% of the calls each), calls of unknown methods (6% on the traits with &mut methods); "
                 "every 24th case is a small scripted case of a known class: a reply above max_reply_size (signature F6:) or a request "
-                "above max_request_size (signature F14:) between ordinary calls of the same and of other clients; every 24th case is an RFn 'limit' case as for C12, every 12th case is a 'callee goes away' case as for C12 (calls, stop op, calls; half of them with local clients); a case is "
+                "above max_request_size (signature F14:) between ordinary calls of the same and of other clients; every 24th case is an RFn 'limit' case as for C12, every 24th case is a 'consume' case (by-value server flavour: a few calls, then a by-value call, cancellable or no_cancel, possibly queued behind a suspended call and / or suspended at a gate, whose caller drops the future / loses the connection / stays; gate openings), half of the dropped futures of the general cases belong to calls suspended at a gate, every 12th case is a 'callee goes away' case as for C12 (calls, stop op, calls; half of them with local clients); a case is "
                 "non-trivial if a call was cancelled, skipped, dropped, failed, undecodable, or the connection was cut; distinct = distinct input",
         "assumptions": [
             "the postbag codec round-trips the request and reply types of the harness traits",
